@@ -6,6 +6,9 @@ RULE_MODULES = {
     'SDO': 'rules.p_sdo',
     'NMT': 'rules.p_nmt',
     'LSS': 'rules.p_lss',
+    'PDOCFG': 'rules.p_pdocfg',
+    'EMCY': 'rules.p_emcy',
+    'PARA': 'rules.p_para',
 }
 
 
@@ -69,6 +72,41 @@ PROPERTIES = {
                        'bit-timing table 0 with defined rate; RF2: handlers never return 0, positive result implies '
                        'identifier 7E4h; RF9: stored configuration loaded before servers/boot-up on reset.',
         'not_decided': 'sequence semantics beyond the step guards',
+    },
+    'C14': {
+        'rules': ['PDOCFG'],
+        'exhaustive': True,
+        'technique': 'decision-table extraction: each PDO parameter Write function folded over valid bit x count x target '
+                     'existence x access flags x new value classes; verdict = stored / refused-with-nothing-stored',
+        'explanation': 'RF2/RF1: COTPdoMapWrite, COTPdoNumWrite, COTPdoTypeWrite and COTPdoIdWrite store the value iff the '
+                       'CiA 301 preconditions hold (PDO invalid, count zero, target exists/mappable/right access, <= 8 '
+                       'entries and <= 8 bytes, no extended id, no RTR for TPDO, no valid->valid), read the valid bit of '
+                       'the right communication record, a refused write stores nothing and returns an error; live '
+                       're-initialisation only in OPERATIONAL when the valid bit changes, after the store; activation '
+                       're-validates byte total and target existence before ObjNum is stored.',
+        'not_decided': 'interaction over write sequences beyond what the guards imply; activated PDO behaviour',
+    },
+    'C15': {
+        'rules': ['EMCY', 'NMT'],
+        'exhaustive': True,
+        'technique': 'decision-table extraction over input classes, must-facts at the transmission site',
+        'explanation': 'RF2: register update and EMCY frame only on a real transition (set/clear/reset, silent reset '
+                       'sends nothing); the send is dominated by the NMT gate and by the valid bit of COB-ID 1014h; RF1: '
+                       'frame layout (code low/high, register byte 2, five manufacturer bytes), 1003h:00 write rule, '
+                       'history ring position wraps to 1 after the depth and the fill level saturates.',
+        'not_decided': 'register/counter consistency over call histories',
+    },
+    'C17': {
+        'rules': ['PARA'],
+        'exhaustive': True,
+        'technique': 'decision-table extraction over signature values, group counts, failure positions, enable flag and '
+                     'driver byte counts',
+        'explanation': 'RF2: store/restore executed iff the written value equals the signature, wrong values refused with '
+                       'no driver call, callback or store; sub-index 1 fans out over groups 2..N and stops at the first '
+                       'error, otherwise exactly the addressed group; enable flag gates driver write / default callback; '
+                       'RF8: NVM byte counts compared with the group size and surfaced (store, load at init, both reset '
+                       'types), never discarded; each NMT reset reloads the groups of its type.',
+        'not_decided': 'crash-point durability and RAM/NVM equality',
     },
     'C10': {
         'rules': ['RF3', 'NMT'],
